@@ -241,6 +241,52 @@ func init() {
 				m := Raw("null")
 				eval(c, "1.2.3", c18cfg(nil, &m), "accept", "null-version")
 			})
+			// the declared version of a configuration spread over several files is the one of the last file that
+			// declares one (scalar attribute: later files win, C09); the gate applies to that one
+			{
+				vs := []string{"0.2.0", "0.3.1", "1.2.0", "1.3.0", "2.0.0", "2.1.0", "2.2.0"}
+				for _, b := range []string{"0.2.5", "1.2.3", "2.1.0"} {
+					for _, v1 := range vs {
+						for _, v2 := range vs {
+							b, v1, v2 := b, v1, v2
+							w.Case("several-files/B="+b+"/"+v1+","+v2, func(c *C) {
+								none := (&Cfg{Params: []Param{{"b", 2}}}).YAML()
+								f1, f2 := c18cfg(&v1, nil), (&Cfg{Version: &v2, Params: []Param{{"c", 3}}}).YAML()
+								for _, form := range []struct {
+									id    string
+									files []File
+									last  string
+								}{
+									{"v1,v2", []File{{"a.yaml", f1}, {"b.yaml", f2}}, v2},
+									{"v1,none", []File{{"a.yaml", f1}, {"b.yaml", none}}, v1},
+									{"none,v2", []File{{"a.yaml", none}, {"b.yaml", f2}}, v2},
+									{"v1,none,v2", []File{{"a.yaml", f1}, {"b.yaml", none}, {"c.yaml", f2}}, v2},
+								} {
+									br := w.BuildWithVersion(b, form.files)
+									exp := c18expect(b, form.last)
+									obs := "accept"
+									if br.Panic != "" {
+										obs = "panic"
+									} else if br.Exit != 0 {
+										obs = "reject-other"
+										for _, l := range ErrorLines(br.Out) {
+											if strings.Contains(l, "version:") && strings.Contains(l, "compiler.StepValidateInput") {
+												obs = "reject-version"
+											}
+										}
+									}
+									c.Count(obs)
+									c.Count("evaluations_extra")
+									if obs != exp {
+										c.Violation("several-files:"+form.id, fmt.Sprintf("build version %q, files declare versions %s (%s -> effective %s): expected %s, observed %s\n%s", b, form.id, v1+" then "+v2, form.last, exp, obs, br.Out), FilesMap(form.files), map[string]any{"build_version": b})
+									}
+								}
+								c.Distinct("nontrivial", "several|"+b+"|"+v1+"|"+v2)
+							})
+						}
+					}
+				}
+			}
 			// real binaries (main.go strips the v of a valid v-prefixed version; anything else is passed on)
 			for i, bv := range binVersions {
 				eff := bv
